@@ -11,9 +11,10 @@ Open Scope string_scope.
 Open Scope list_scope.
 
 (* a \s character is neither a digit, nor a dot, nor a star (256-character sweep) *)
-Lemma space_not_special c : is_space c = true -> (is_digit c || Ascii.eqb c ".") = false /\ Ascii.eqb c "*" = false.
+Lemma space_not_special c : is_space c = true ->
+  (is_digit c || Ascii.eqb c ".") = false /\ Ascii.eqb c "*" = false /\ is_opc c = false.
 Proof.
-  destruct c as [[] [] [] [] [] [] [] []]; vm_compute; intros H; try discriminate H; split; reflexivity.
+  destruct c as [[] [] [] [] [] [] [] []]; vm_compute; intros H; try discriminate H; repeat split; reflexivity.
 Qed.
 
 (* one step of the lexer: tokens emitted, next state *)
@@ -25,6 +26,11 @@ Definition lex_step (st : lstate) (i : item) : list ctok * lstate :=
       match st with LNum a => ([], LNum (String c a)) | _ => (flush st, LNum (String c "")) end
     else if Ascii.eqb c "*" then
       match st with LStar => ([CPow], LNone) | _ => (flush st, LStar) end
+    else if is_opc c then
+      match st with
+      | LOp p => if Ascii.eqb c "=" then ([op2 p], LNone) else (flush st, LOp c)
+      | _ => (flush st, LOp c)
+      end
     else if is_space c then (flush st, LNone)
     else (flush st ++ [tok_of_char c], LNone)
   end.
@@ -34,13 +40,14 @@ Proof.
   destruct i as [c|p m]; cbn [lex_items lex_step].
   - destruct (is_digit c || Ascii.eqb c "."); [destruct st; reflexivity|].
     destruct (Ascii.eqb c "*"); [destruct st; reflexivity|].
+    destruct (is_opc c); [destruct st; try reflexivity; destruct (Ascii.eqb c "="); reflexivity|].
     destruct (is_space c); cbn [fst snd]; [reflexivity|]. rewrite <- app_assoc. reflexivity.
   - cbn [fst snd]. rewrite <- app_assoc. reflexivity.
 Qed.
 
 Lemma lex_space st c r : is_space c = true -> lex_items st (Chr c :: r) = flush st ++ lex_items LNone r.
 Proof.
-  intros H. destruct (space_not_special c H) as [H1 H2]. cbn [lex_items]. rewrite H1, H2, H. reflexivity.
+  intros H. destruct (space_not_special c H) as (H1 & H2 & H3). cbn [lex_items]. rewrite H1, H2, H3, H. reflexivity.
 Qed.
 Lemma lex_space_none c r : is_space c = true -> lex_items LNone (Chr c :: r) = lex_items LNone r.
 Proof. intros H. rewrite (lex_space _ _ _ H). reflexivity. Qed.
